@@ -371,8 +371,8 @@ func (hr *histRun) own(idx int) []tmpInfo {
 
 func runHistories(r *mon.Run, tmp string) {
 	const caseBase = 1_000_000 // history case ids are disjoint from round-trip case ids (replay selects by id)
-	n := r.N(500, 20_000)
-	nBig := r.N(4, 160)
+	n := r.N(500, 10_000)
+	nBig := r.N(4, 80)
 	one := func(k int, big bool) {
 		cas := caseBase + k
 		if !r.Want(cas) {
